@@ -14,7 +14,9 @@ package mcp
 import (
 	"bytes"
 	"context"
+	"errors"
 	"fmt"
+	"io"
 	"log/slog"
 	"math/rand"
 	"sort"
@@ -306,8 +308,104 @@ var pgGarbage = []string{"!", "not base64 !!", "AAAA", "e30", "eyJhIjoxfQ==", "%
 
 // ------------------------------------------------------------------ applying the ops
 
+// ndRWC: a byte string as the stream of an io connection (everything available at once)
+type ndRWC struct{ r *bytes.Reader }
+
+func (c ndRWC) Read(p []byte) (int, error)  { return c.r.Read(p) }
+func (c ndRWC) Write(p []byte) (int, error) { return len(p), nil }
+func (c ndRWC) Close() error                { return nil }
+
+// ndSplit: the bytes through the reader goroutine of the REAL newIOConn (json.Decoder + the check of the byte
+// that follows a value): the raw values it hands to ioConn.Read, in order, and how the stream ended.
+func ndSplit(b []byte) (obs string) {
+	defer func() {
+		if r := recover(); r != nil {
+			obs = "panic"
+		}
+	}()
+	c := newIOConn(ndRWC{bytes.NewReader(b)})
+	defer c.Close()
+	var out []string
+	for {
+		select {
+		case v := <-c.incoming:
+			if v.err != nil {
+				end := "other"
+				switch {
+				case errors.Is(v.err, io.EOF):
+					end = "eof"
+				case strings.Contains(v.err.Error(), "invalid trailing data"):
+					end = "trailing"
+				}
+				return strings.Join(append(append([]string{fmt.Sprintf("n%d", len(out))}, out...), end), " ")
+			}
+			out = append(out, "x"+hx(v.msg))
+		case <-time.After(5 * time.Second):
+			return "hang"
+		}
+	}
+}
+
+// genNdStream: 1-4 frames (objects and arrays as the io generator makes them, plus texts with brackets, quotes and
+// backslashes inside strings) each followed by what a peer may put after a frame: LF (70%), CRLF, LF and further
+// white space; 8% something the SDK's reader refuses (a blank, nothing, a letter); the last frame in a quarter of
+// the streams without anything after it.  At most 480 bytes (the decoder buffers 512 at once: the reader's check
+// of the byte after a value looks at buffered bytes only).
+func genNdStream(r *rand.Rand, g *ioGen) (string, []string) {
+	tricky := []string{`{"a":"}\"]{[\\"}`, `[{"k":"[\"","v":["]","{"]},{}]`, `{"jsonrpc":"2.0","method":"a{b","params":{"s":"\\\"}"}}`, `{}`, `[[],[{}]]`}
+	seps := []string{"\n", "\n", "\n", "\n", "\n", "\n", "\n", "\r\n", "\r\n", "\n\n \t", "\r\n\r\n", "\n  ", " ", "", "x"}
+	var toks []string
+	total := 0
+	tags := []string{"nd:split"}
+	n := 1 + r.Intn(4)
+	for i := 0; i < n; i++ {
+		var txt string
+		if r.Intn(4) == 0 {
+			txt = tricky[r.Intn(len(tricky))]
+		} else {
+			var used []jv
+			v := g.frame(&used)
+			if v.k != 'o' && v.k != 'a' {
+				v = jObj()
+			}
+			txt = v.text()
+		}
+		sep := seps[r.Intn(len(seps))]
+		if i == n-1 && r.Intn(4) == 0 {
+			sep = ""
+		}
+		if total+len(txt)+len(sep) > 480 {
+			break
+		}
+		total += len(txt) + len(sep)
+		toks = append(toks, "x"+hx([]byte(txt)), "x"+hx([]byte(sep)))
+		switch {
+		case sep == "" && i < n-1, sep == " ", sep == "x":
+			tags = append(tags, "nd:refused-separator")
+		case strings.HasPrefix(sep, "\r"):
+			tags = append(tags, "nd:crlf")
+		}
+	}
+	if len(toks) == 0 {
+		toks = []string{"x" + hx([]byte("{}")), "x" + hx([]byte("\n"))}
+	}
+	return strings.Join(toks, " "), tags
+}
+
 func (w *wireWorld) apply3(kind string, p *tokStream, op string) string {
 	switch kind {
+	case "nd.split":
+		var buf bytes.Buffer
+		for !p.done() {
+			v, ok1 := unhex(strings.TrimPrefix(p.next(), "x"))
+			ws, ok2 := unhex(strings.TrimPrefix(p.next(), "x"))
+			if !ok1 || !ok2 {
+				return "bad-op"
+			}
+			buf.WriteString(v)
+			buf.WriteString(ws)
+		}
+		return ndSplit(buf.Bytes())
 	case "sse.lines":
 		var framed, lf bytes.Buffer
 		for !p.done() {
